@@ -49,7 +49,7 @@ static void childProgram(simproc::Child* c) {
       int fd = op.code == C_WOUT ? 1 : 2; if (!(fd == 1 ? hasOut : hasErr)) break;
       size_t total = (size_t)(op.a[0] % 9000), chunk = 1 + (size_t)(op.a[1] % 3000);
       uint64_t& cnt = fd == 1 ? C.childOut : C.childErr;
-      while (total > 0 && !simproc::childKilled(c)) { size_t n = total < chunk ? total : chunk; for (size_t q = 0; q < n; ++q) buf[q] = codeByte(fd, cnt + q); ssize_t r = write(fd, buf, n); if (r <= 0) { total = 0; break; } { NoPreempt np; cnt += r; } total -= r; }
+      while (total > 0 && !simproc::childKilled(c)) { size_t n = total < chunk ? total : chunk; for (size_t q = 0; q < n; ++q) buf[q] = codeByte(fd, cnt + q); ssize_t r = write(fd, buf, n); if (r < 0 && errno == EPIPE) { /* nobody can read this pipe any more: the default action of SIGPIPE ends the child */ probe("child_killed_by_sigpipe"); c->exited = true; c->status = 13; C.childDone = true; return; } if (r <= 0) { total = 0; break; } { NoPreempt np; cnt += r; } total -= r; }
       break; }
     case C_SLEEP: { static const int64_t ms[] = {0, 1, 50, 2000, 999000, 1001000, 1800000}; sleepNs(ms[op.a[0] % 7] * 1000000LL); break; }
     case C_ECHO: {
@@ -105,7 +105,7 @@ static void peerCheckParentRead(int stream, const unsigned char* b, ssize_t r) {
 
 // ------------------------------------------------------------------ Process::Arguments (pure clause, rides along)
 static const Process::Option optTable[] = { {'a', "alpha", Process::optionFlag}, {'b', "bravo", Process::optionFlag}, {'o', "out", Process::argumentFlag}, {'v', 0, Process::optionFlag}, {1000, "longonly", Process::argumentFlag} };
-static const char* argWords[] = {"-a", "-b", "-o", "-ab", "-abo", "-ofile", "--alpha", "--out", "--out=v", "--", "-", "x", "-z", "--zeta", "-aofile", "-bz", "--longonly=7", "--longonly", "file", "-v", "--zeta=1", "-ao", "--out=", "--longonly="};
+static const char* argWords[] = {"-a", "-b", "-o", "-ab", "-abo", "-ofile", "--alpha", "--out", "--out=v", "--", "-", "x", "-z", "--zeta", "-aofile", "-bz", "--longonly=7", "--longonly", "file", "-v", "--zeta=1", "-ao", "--out=", "--longonly=", "--outx", "--alphabet", "--outer=7", "--longonlyx", "--out-dir", "--bravo2=1"};   /* the last six extend a known name: unknown options, not prefixes of known ones */
 struct Parsed { int ch; std::string arg; bool operator==(const Parsed& o) const { return ch == o.ch && arg == o.arg; } };
 static std::vector<Parsed> refParse(const std::vector<std::string>& av) {   // av[0] is the program name
   std::vector<Parsed> out; bool skip = false;
@@ -132,7 +132,7 @@ static std::vector<Parsed> refParse(const std::vector<std::string>& av) {   // a
   return out;
 }
 static void argumentsOp(uint64_t seed) {
-  std::vector<std::string> av; { Host h; av.push_back("prog"); int n = (int)(seed % 6); seed /= 6; for (int i = 0; i < n; ++i) { av.push_back(argWords[seed % 24]); seed /= 24; } }
+  std::vector<std::string> av; { Host h; av.push_back("prog"); int n = (int)(seed % 6); seed /= 6; for (int i = 0; i < n; ++i) { av.push_back(argWords[seed % 30]); seed /= 30; } }
   // every argv[i] lives in an exactly sized arena block: reading past a terminator is caught by the shadow
   int argc = (int)av.size(); char** argv = new char*[argc];
   for (int i = 0; i < argc; ++i) { argv[i] = new char[av[i].size() + 1]; memcpy(argv[i], av[i].c_str(), av[i].size() + 1); }
@@ -187,6 +187,15 @@ static void drainAndJoin() {
   }
   unsigned open = C.streams & (Process::stdoutStream | Process::stderrStream);
   if (C.outEof) open &= ~Process::stdoutStream; if (C.errEof) open &= ~Process::stderrStream;
+  /* a parent that is only interested in the exit code joins without reading: legitimate whenever everything the child writes fits into the pipes
+     (otherwise the child blocks for ever - the caller's deadlock, not generated) */
+  bool joinEarly = false;
+  if (simdrv::knob(*C.spec, "join_without_reading", 0) && !C.proc2) {
+    uint64_t wout = 0, werr = 0; bool echo = false; const RunSpec& sp = *C.spec;
+    for (size_t i = 0; i < sp.plan.size(); ++i) { const Op& op = sp.plan[i]; if (op.task != 1) continue; if (op.code == C_WOUT) wout += (uint64_t)(op.a[0] % 9000); if (op.code == C_WERR) werr += (uint64_t)(op.a[0] % 9000); if (op.code == C_ECHO) echo = true; }
+    uint64_t cap = (uint64_t)simdrv::knob(sp, "pipe_cap", 65536);
+    if (!echo && wout + C.parentOut <= cap && werr + C.parentErr <= cap && wout <= cap && werr <= cap) { joinEarly = true; open = 0; probe("join_without_reading"); }
+  }
   bool useSelect = simdrv::knob(*C.spec, "drain_with_select", 0) != 0;
   while (open) {
     if (open == Process::stdoutStream && !useSelect) { ssize_t r = C.proc->read(buf, sizeof buf); if (r < 0) fail("C20/read_failed", "read(stdout) failed although the stream is open"); if (r == 0) { C.outEof = true; open = 0; } else peerCheckParentRead(1, buf, r); continue; }
@@ -206,6 +215,7 @@ static void drainAndJoin() {
     int expCode = c && c->execed ? (int)(simdrv::knob(*C.spec, "exit_code", 0) & 0xff) : 1;
     if ((int)code != expCode) fail("C20/exit_code", "join() returned exit code %u, the child exited with %d", code, expCode);
     NoPreempt np;
+    if (joinEarly && c && c->status == 13) fail("C20/child_lost_its_output_pipe", "the child was killed by SIGPIPE: join() closed the read end of a redirected stream while the child was still running");
     if ((C.streams & Process::stdoutStream) && C.outEof && C.parentOut != C.childOut) fail("C20/output_lost", "parent read %llu bytes of stdout up to end-of-file, the child wrote %llu", (unsigned long long)C.parentOut, (unsigned long long)C.childOut);
     if ((C.streams & Process::stderrStream) && C.errEof && C.parentErr != C.childErr) fail("C20/output_lost", "parent read %llu bytes of stderr up to end-of-file, the child wrote %llu", (unsigned long long)C.parentErr, (unsigned long long)C.childErr);
     if (C.childSawEof && C.childIn != C.parentIn) fail("C20/input_lost", "child read %llu bytes of stdin up to end-of-file, the parent wrote %llu", (unsigned long long)C.childIn, (unsigned long long)C.parentIn);
@@ -260,7 +270,7 @@ static void generate(RunSpec& s, int tier) {
   auto r = [&](uint64_t n) { z += 0x9e3779b97f4a7c15ULL; uint64_t x = z; x = (x ^ (x >> 30)) * 0xbf58476d1ce4e5b9ULL; x = (x ^ (x >> 27)) * 0x94d049bb133111ebULL; x ^= x >> 31; return n ? x % n : x; };
   int mode = r(4) == 0 ? 1 : 0; s.knobs["mode"] = mode;
   if (mode == 1) { int n = 1 + (int)r(12); for (int i = 0; i < n; ++i) { Op o; o.task = 0; o.code = A_PARSE; o.a[0] = (int64_t)r(1u << 30); o.a[1] = (int64_t)r(1u << 30); o.a[2] = o.a[3] = 0; s.plan.push_back(o); } return; }
-  static const int caps[] = {1, 16, 512, 4096, 65536}; s.knobs["pipe_cap"] = caps[r(5)]; s.knobs["exit_code"] = r(4) == 0 ? r(256) : r(3); s.knobs["drain_with_select"] = r(2); s.knobs["read_chunk"] = r(4096); s.knobs["kill_instead_of_join"] = r(10) == 0; s.knobs["stdin_readable"] = r(2); s.knobs["full_mask"] = r(2);
+  static const int caps[] = {1, 16, 512, 4096, 65536}; s.knobs["pipe_cap"] = caps[r(5)]; s.knobs["exit_code"] = r(4) == 0 ? r(256) : r(3); s.knobs["drain_with_select"] = r(2); s.knobs["read_chunk"] = r(4096); s.knobs["kill_instead_of_join"] = r(10) == 0; s.knobs["stdin_readable"] = r(2); s.knobs["join_without_reading"] = r(4) == 0; s.knobs["full_mask"] = r(2);
   static const int pct[] = {0, 0, 10, 30}; s.knobs["pipe_fault_pct"] = pct[r(4)]; s.knobs["eintr_pct"] = r(3) == 0 ? 5 : 0; s.knobs["exec_fail_pct"] = r(8) == 0 ? 100 : 0; s.knobs["second_process"] = r(3) == 0 ? 1 + r(3) : 0;
   static const int synck[] = {0, 1, 2, 4}; s.knobs["sync_switch_log2"] = synck[r(4)]; static const int memk[] = {255, 255, 8, 5}; s.knobs["mem_switch_log2"] = memk[r(4)];
   { Op o; o.task = 0; o.code = P_OPEN; o.a[0] = (int64_t)r(6); o.a[1] = (int64_t)r(8); o.a[2] = (int64_t)r(4); o.a[3] = (int64_t)r(1u << 30); s.plan.push_back(o); }
